@@ -21,7 +21,20 @@ func main() {
 	tags := flag.String("tags", "", "build tags")
 	var overlays multiFlag
 	flag.Var(&overlays, "overlay", "rel/path.go=replacement-file (analysis of a variant without touching the repository); repeatable")
+	gen := flag.String("gen-symbols", "", "write the baseline symbol inventory of -repo to this file and exit")
 	flag.Parse()
+	if *gen != "" {
+		p, err := an.Load(an.LoadOpts{Root: *root, Tags: *tags})
+		if err != nil {
+			fmt.Fprintln(os.Stderr, err)
+			os.Exit(2)
+		}
+		if err := p.GenBaseline(*gen); err != nil {
+			fmt.Fprintln(os.Stderr, err)
+			os.Exit(2)
+		}
+		os.Exit(0)
+	}
 	for _, o := range overlays {
 		kv := strings.SplitN(o, "=", 2)
 		b, err := os.ReadFile(kv[1])
@@ -71,7 +84,7 @@ func run(prop, tier, root, verif, tags string, seed int, f props.PropFunc) (code
 			panic(e)
 		}
 	}()
-	p, err := an.Load(an.LoadOpts{Root: root, Whole: (tier == "thorough" && props.NeedsWhole[prop]) || props.AlwaysWhole[prop], Tags: tags, Overlay: overlay})
+	p, err := an.Load(an.LoadOpts{Root: root, Whole: (tier == "thorough" && props.NeedsWhole[prop]) || props.AlwaysWhole[prop], Tags: tags, Overlay: overlay, Baseline: baselinePath()})
 	if err != nil {
 		r = an.NewReport(prop, tier, nil)
 		r.Undecided("load", "the program must load and type-check", "", err.Error())
@@ -93,4 +106,17 @@ func init() {
 		p.DumpCalls(os.Args[2])
 		os.Exit(0)
 	}
+}
+
+// baselinePath: checker/baseline_symbols.json next to the binary's bin/ directory (the inventory belongs to the rule
+// set, not to the evidence directory).
+func baselinePath() string {
+	if e := os.Getenv("VERIF_BASELINE_SYMBOLS"); e != "" {
+		return e
+	}
+	exe, err := os.Executable()
+	if err != nil {
+		return ""
+	}
+	return filepath.Join(filepath.Dir(filepath.Dir(exe)), "checker", "baseline_symbols.json")
 }
